@@ -446,10 +446,55 @@ func c14slowDispatcher(e common.Env, p *common.Part) {
 	}
 }
 
+// c14manySenders: many senders, each far within its own limit, buffer on ONE unstarted topic (a large session whose local party is
+// slow to start): more than a hundred messages in all. The first Send hands every one of them over, per sender in arrival order.
+func c14manySenders(e common.Env, p *common.Part) {
+	for _, cfg := range [][2]int{{11, 11}, {30, 5}, {3, 100}, {60, 3}} {
+		senders, per := cfg[0], cfg[1]
+		key := fmt.Sprintf("%d senders x %d messages buffered on one unstarted topic", senders, per)
+		p.Begin(key)
+		h := &boxHandler{}
+		b := newBox(h)
+		msg.SetVerifHook(func(string) {})
+		var want []string
+		for k := 0; k < per; k++ {
+			for s := 0; s < senders; s++ {
+				mkOp(b, fmt.Sprintf("r:T:%d:m%d_%d", 100+s, s, k))()
+			}
+		}
+		for s := 0; s < senders; s++ {
+			for k := 0; k < per; k++ {
+				want = append(want, fmt.Sprintf("T/%d/m%d_%d", 100+s, s, k))
+			}
+		}
+		mkOp(b, "s:T")()
+		b.Stop()
+		h.mu.Lock()
+		got := append([]string{}, h.log...)
+		h.mu.Unlock()
+		bySender := map[string][]string{}
+		for _, l := range got {
+			f := strings.SplitN(l, "/", 3)
+			bySender[f[1]] = append(bySender[f[1]], l)
+		}
+		var flat []string
+		for s := 0; s < senders; s++ {
+			flat = append(flat, bySender[fmt.Sprint(100+s)]...)
+		}
+		p.Case(key, true)
+		p.Count("many_sender_histories", 1)
+		if len(got) != len(want) || fmt.Sprint(flat) != fmt.Sprint(want) {
+			p.Violate("lost/many-senders-on-one-topic", fmt.Sprintf("%s (each sender within its limit of 100): %d of %d messages were handed over by the first Send, or not in per-sender arrival order", key, len(got), len(want)), map[string]interface{}{"senders": senders, "per_sender": per})
+			return
+		}
+	}
+}
+
 func unitC14stress(e common.Env, p *common.Part) {
 	if e.Mine(0) {
 		ctlMu.Lock()
 		c14slowDispatcher(e, p)
+		c14manySenders(e, p)
 		ctlMu.Unlock()
 	}
 	p.Rule = "real msg.Box, real goroutines (one per sender, one or two local senders), no hook installed, many short histories; plus sequential histories on a hand-driven epoch clock in which the dispatcher lets 0..3x the expiry pass while it is handed the first buffered message of a first Send, followed by Sends on other topics (collection passes) and two late arrivals on the topic, which are due at once; distinct key = history hash; non-trivial when the history has >=1 receive concurrent with a Send on the same topic"
